@@ -1,4 +1,5 @@
 import SqlgrepModel.Model.JsonDoc
+import SqlgrepModel.Lemmas.DecFloat
 /-
 `JsonDoc.docOfLine` (the Lean computation of `serde_json::from_str::<Value>(line)`) and RFC 8259.
 
@@ -7,7 +8,10 @@ import SqlgrepModel.Model.JsonDoc
 * `parseJsonL_grammar` / `parseJsonL_complete`: hence (by `parseJson_iff`) `parseJsonL cs = some l` exactly when `cs` is a
   `JSON-text` of RFC 8259 whose denotation is `l.erase`;
 * `docOfLine_some_iff`, `docOfLine_rfc8259`, `not_rfc8259_not_json`: a line has a document iff its bytes are UTF-8 of a
-  `JSON-text`, within serde_json's two limits (nesting ≤ 127, numbers in the REAL range).
+  `JSON-text`, within serde_json's two limits (nesting ≤ 127, numbers in the REAL range);
+* `serdeNumber_spec`, `toJson_nums`, `nums_followPath`: every number found in the document at a path is serde_json's
+  reading of a number lexeme of the text, and its REAL is `decToF64` of the lexeme's denotation `Dec` (hence the nearest REAL:
+  `DecFloat.decToF64_nearest`).
 -/
 namespace Sqlgrep
 namespace JsonDoc
@@ -243,6 +247,240 @@ theorem rfc8259_has_doc (line : List Nat) (cs : List Char) (x : JVal) (hd : Utf8
   refine ⟨l, he, ?_⟩
   unfold docOfLine docOfChars
   rw [hd]; simp only; rw [hl]
+
+/-! ### numbers: the REAL of a JSON number is the nearest REAL of the literal's denotation -/
+
+/-- what `serdeNumber` answers: the literal is a `number` of the grammar with denotation `d`, the number's REAL
+(`as_f64`) is `decToF64` of `d` with the literal's sign, and that REAL is finite -/
+theorem serdeNumber_spec (lex : List Char) (n : JNum) (h : serdeNumber lex = some n) :
+    ∃ d, numValue lex = some d ∧ (Json.num n).asF64 = some (realOfDec (lexNeg lex) d) ∧
+      realOfDec (lexNeg lex) d % 2 ^ 63 ≠ DecFloat.infBits := by
+  unfold serdeNumber at h
+  cases hd : numValue lex with
+  | none => rw [hd] at h; cases h
+  | some d =>
+    rw [hd] at h
+    simp only at h
+    refine ⟨d, rfl, ?_⟩
+    by_cases hinf : realOfDec (lexNeg lex) d % 2 ^ 63 = DecFloat.infBits
+    · rw [if_pos hinf] at h; cases h
+    · rw [if_neg hinf] at h
+      refine ⟨?_, hinf⟩
+      split at h
+      · split at h
+        · cases h; rfl
+        · split at h
+          · cases h; rfl
+          · split at h <;> (cases h; rfl)
+      · cases h; rfl
+
+/-- the magnitude of `realOfDec` is the conversion of the non-negative number -/
+theorem realOfDec_mag (neg : Bool) (d : Dec) :
+    realOfDec neg d % 2 ^ 63 = DecFloat.decToF64 false d.mant.natAbs d.exp := by
+  unfold realOfDec
+  have hle := DecFloat.decToF64_pos_le d.mant.natAbs d.exp
+  unfold DecFloat.infBits at hle
+  cases neg with
+  | false => omega
+  | true => rw [DecFloat.decToF64_neg]; unfold DecFloat.signMask; omega
+
+/-! ### every number of the document comes from a number lexeme of the text -/
+
+mutual
+/-- the number lexemes of a parsed text -/
+def LVal.lexemes : LVal → List (List Char)
+  | .num lex => [lex]
+  | .arr xs => LVal.lexemesList xs
+  | .obj ms => LVal.lexemesMembers ms
+  | _ => []
+def LVal.lexemesList : List LVal → List (List Char)
+  | [] => []
+  | x :: xs => x.lexemes ++ LVal.lexemesList xs
+def LVal.lexemesMembers : List (List Char × LVal) → List (List Char)
+  | [] => []
+  | (_, x) :: ms => x.lexemes ++ LVal.lexemesMembers ms
+end
+
+mutual
+/-- the number nodes of a document -/
+def nums : Json → List JNum
+  | .num n => [n]
+  | .arr xs => numsList xs
+  | .obj kvs => numsMembers kvs
+  | _ => []
+def numsList : List Json → List JNum
+  | [] => []
+  | x :: xs => nums x ++ numsList xs
+def numsMembers : List (List Nat × Json) → List JNum
+  | [] => []
+  | (_, x) :: kvs => nums x ++ numsMembers kvs
+end
+
+theorem nums_getIndex {xs : List Json} {i : Nat} {v : Json} (h : xs[i]? = some v) : ∀ n ∈ nums v, n ∈ numsList xs := by
+  induction xs generalizing i with
+  | nil => simp at h
+  | cons x xs ih =>
+    intro n hn
+    rw [numsList]
+    cases i with
+    | zero => simp at h; subst h; exact List.mem_append_left _ hn
+    | succ i => exact List.mem_append_right _ (ih (by simpa using h) n hn)
+
+theorem nums_lookup {kvs : List (List Nat × Json)} {k : List Nat} {v : Json} (h : kvs.lookup k = some v) :
+    ∀ n ∈ nums v, n ∈ numsMembers kvs := by
+  induction kvs with
+  | nil => simp [List.lookup] at h
+  | cons kv kvs ih =>
+    obtain ⟨k', x⟩ := kv
+    intro n hn
+    rw [numsMembers]
+    rw [List.lookup] at h
+    split at h
+    · cases h; exact List.mem_append_left _ hn
+    · exact List.mem_append_right _ (ih h n hn)
+
+/-- a value reached by a path is a sub-tree: its numbers are numbers of the document -/
+theorem nums_followPath : ∀ (steps : List JsonStep) (j v : Json), followPath steps j = some v → ∀ n ∈ nums v, n ∈ nums j
+  | [], j, v, h => by simp only [followPath, Option.some.injEq] at h; subst h; exact fun n hn => hn
+  | s :: rest, j, v, h => by
+    rw [followPath] at h
+    cases hs : JsonAccess.step j s with
+    | none => rw [hs] at h; cases h
+    | some w =>
+      rw [hs] at h
+      intro n hn
+      have hw := nums_followPath rest w v h n hn
+      cases s with
+      | field name =>
+        cases j with
+        | obj kvs => rw [nums]; exact nums_lookup (by simpa [JsonAccess.step, Json.getField] using hs) n hw
+        | _ => simp [JsonAccess.step, Json.getField] at hs
+      | index i =>
+        cases j with
+        | arr xs => rw [nums]; exact nums_getIndex (by simpa [JsonAccess.step, Json.getIndex] using hs) n hw
+        | _ => simp [JsonAccess.step, Json.getIndex] at hs
+
+theorem nums_insertMember (m : List (List Nat × Json)) (k : List Nat) (v : Json) :
+    ∀ n ∈ numsMembers (insertMember m k v), n ∈ numsMembers m ∨ n ∈ nums v := by
+  induction m with
+  | nil => intro n hn; simp [insertMember, numsMembers] at hn; exact Or.inr hn
+  | cons kv m ih =>
+    obtain ⟨k', v'⟩ := kv
+    intro n hn
+    rw [insertMember] at hn
+    split at hn
+    · rw [numsMembers, List.mem_append] at hn
+      rw [numsMembers, List.mem_append]
+      rcases hn with h | h
+      · exact Or.inr h
+      · exact Or.inl (Or.inr h)
+    · rw [numsMembers, List.mem_append] at hn
+      rw [numsMembers, List.mem_append]
+      rcases hn with h | h
+      · exact Or.inl (Or.inl h)
+      · rcases ih n h with h' | h'
+        · exact Or.inl (Or.inr h')
+        · exact Or.inr h'
+
+theorem nums_dedupe (kvs : List (List Nat × Json)) (acc : List (List Nat × Json)) :
+    ∀ n ∈ numsMembers (kvs.foldl (fun m kv => insertMember m kv.1 kv.2) acc), n ∈ numsMembers acc ∨ n ∈ numsMembers kvs := by
+  induction kvs generalizing acc with
+  | nil => intro n hn; exact Or.inl hn
+  | cons kv kvs ih =>
+    intro n hn
+    rw [List.foldl] at hn
+    obtain ⟨k, v⟩ := kv
+    rw [numsMembers, List.mem_append]
+    rcases ih _ n hn with h | h
+    · rcases nums_insertMember acc k v n h with h' | h'
+      · exact Or.inl h'
+      · exact Or.inr (Or.inl h')
+    · exact Or.inr (Or.inr h)
+
+mutual
+/-- every number of the document is serde_json's reading of a number lexeme of the text -/
+theorem toJson_nums : ∀ (l : LVal) (j : Json), toJson l = some j → ∀ n ∈ nums j, ∃ lex ∈ l.lexemes, serdeNumber lex = some n
+  | .null, j, h => by simp only [toJson, Option.some.injEq] at h; subst h; intro n hn; simp [nums] at hn
+  | .bool b, j, h => by simp only [toJson, Option.some.injEq] at h; subst h; intro n hn; simp [nums] at hn
+  | .str s, j, h => by simp only [toJson, Option.some.injEq] at h; subst h; intro n hn; simp [nums] at hn
+  | .num lex, j, h => by
+    rw [toJson] at h
+    cases hs : serdeNumber lex with
+    | none => rw [hs] at h; cases h
+    | some m =>
+      rw [hs] at h
+      simp only [Option.map, Option.some.injEq] at h; subst h
+      intro n hn
+      simp only [nums, List.mem_singleton] at hn; subst hn
+      exact ⟨lex, by simp [LVal.lexemes], hs⟩
+  | .arr xs, j, h => by
+    rw [toJson] at h
+    cases hx : toJsonList xs with
+    | none => rw [hx] at h; cases h
+    | some vs =>
+      rw [hx] at h
+      simp only [Option.map, Option.some.injEq] at h; subst h
+      intro n hn
+      rw [nums] at hn
+      rw [LVal.lexemes]
+      exact toJsonList_nums xs vs hx n hn
+  | .obj ms, j, h => by
+    rw [toJson] at h
+    cases hx : toJsonMembers ms with
+    | none => rw [hx] at h; cases h
+    | some kvs =>
+      rw [hx] at h
+      simp only [Option.map, Option.some.injEq] at h; subst h
+      intro n hn
+      rw [nums] at hn
+      rw [LVal.lexemes]
+      rcases nums_dedupe kvs [] n hn with h' | h'
+      · simp [numsMembers] at h'
+      · exact toJsonMembers_nums ms kvs hx n h'
+theorem toJsonList_nums : ∀ (xs : List LVal) (vs : List Json), toJsonList xs = some vs →
+    ∀ n ∈ numsList vs, ∃ lex ∈ LVal.lexemesList xs, serdeNumber lex = some n
+  | [], vs, h => by simp only [toJsonList, Option.some.injEq] at h; subst h; intro n hn; simp [numsList] at hn
+  | x :: xs, vs, h => by
+    rw [toJsonList] at h
+    cases h1 : toJson x with
+    | none => rw [h1] at h; simp at h
+    | some v =>
+      cases h2 : toJsonList xs with
+      | none => rw [h1, h2] at h; simp at h
+      | some vs' =>
+        rw [h1, h2] at h
+        simp only [Option.some.injEq] at h; subst h
+        intro n hn
+        rw [numsList, List.mem_append] at hn
+        rw [LVal.lexemesList]
+        rcases hn with hn | hn
+        · obtain ⟨lex, hl, hs⟩ := toJson_nums x v h1 n hn
+          exact ⟨lex, List.mem_append_left _ hl, hs⟩
+        · obtain ⟨lex, hl, hs⟩ := toJsonList_nums xs vs' h2 n hn
+          exact ⟨lex, List.mem_append_right _ hl, hs⟩
+theorem toJsonMembers_nums : ∀ (ms : List (List Char × LVal)) (kvs : List (List Nat × Json)), toJsonMembers ms = some kvs →
+    ∀ n ∈ numsMembers kvs, ∃ lex ∈ LVal.lexemesMembers ms, serdeNumber lex = some n
+  | [], kvs, h => by simp only [toJsonMembers, Option.some.injEq] at h; subst h; intro n hn; simp [numsMembers] at hn
+  | (k, x) :: ms, kvs, h => by
+    rw [toJsonMembers] at h
+    cases h1 : toJson x with
+    | none => rw [h1] at h; simp at h
+    | some v =>
+      cases h2 : toJsonMembers ms with
+      | none => rw [h1, h2] at h; simp at h
+      | some kvs' =>
+        rw [h1, h2] at h
+        simp only [Option.some.injEq] at h; subst h
+        intro n hn
+        rw [numsMembers, List.mem_append] at hn
+        rw [LVal.lexemesMembers]
+        rcases hn with hn | hn
+        · obtain ⟨lex, hl, hs⟩ := toJson_nums x v h1 n hn
+          exact ⟨lex, List.mem_append_left _ hl, hs⟩
+        · obtain ⟨lex, hl, hs⟩ := toJsonMembers_nums ms kvs' h2 n hn
+          exact ⟨lex, List.mem_append_right _ hl, hs⟩
+end
+
 
 end JsonDoc
 end Sqlgrep
